@@ -42,8 +42,14 @@ func VerifC17TextField() {
 	tf.cursor = uint(cur)
 	changes, submits := 0, 0
 	submitted := ""
-	tf.OnChange = func(string) (vxfw.Command, error) { changes++; return nil, nil }
-	tf.OnSubmit = func(s string) (vxfw.Command, error) { submits++; submitted = s; return nil, nil }
+	// the callbacks are optional: the editor behaves the same with or without them
+	haveChange, haveSubmit := zzverif.Bool("haveOnChange"), zzverif.Bool("haveOnSubmit")
+	if haveChange {
+		tf.OnChange = func(string) (vxfw.Command, error) { changes++; return nil, nil }
+	}
+	if haveSubmit {
+		tf.OnSubmit = func(s string) (vxfw.Command, error) { submits++; submitted = s; return nil, nil }
+	}
 	pre := tf.Value
 	key := func(k vaxis.Key) { tf.HandleEvent(k, vxfw.TargetPhase) }
 	insert := func(gs ...verifG) {
@@ -101,7 +107,9 @@ func VerifC17TextField() {
 		ideal, cur = nil, 0
 	}
 	if wantSubmit {
-		zzverif.Assert(submits == 1 && submitted == pre, "enter-submits-the-line")
+		if haveSubmit {
+			zzverif.Assert(submits == 1 && submitted == pre, "enter-submits-the-line")
+		}
 		ideal, cur = nil, 0
 	} else {
 		zzverif.Assert(submits == 0, "no-submit-without-enter")
@@ -110,7 +118,7 @@ func VerifC17TextField() {
 	zzverif.Assert(int(tf.cursor) == cur, "cursor-equals-ideal-cursor")
 	zzverif.Assert(tf.cursor <= graphemeCountInString(tf.Value), "cursor-within-text")
 	zzverif.Assert(tf.n == graphemeCountInString(tf.Value), "count-invariant-preserved")
-	if op <= 8 { // key events report changes through OnChange
+	if op <= 8 && haveChange { // key events report changes through OnChange
 		if tf.Value != pre {
 			zzverif.Assert(changes == 1, "change-callback-fires-when-value-changes")
 		} else {
